@@ -5,7 +5,7 @@ from ..ref import P, L, to32, le
 
 REQUIRED = ['dec:torsion-enc', 'dec:noncanon-y', 'dec:reject', 'dec:accept', 'dec:x0-signbit', 'rel:Q=P', 'rel:Q=-P',
             'rel:Q=P+T', 'rel:indep', 'history', 'pred:identity', 'pred:small', 'pred:mixed', 'pred:prime', 'eq:scaled',
-            'roundtrip', 'sum-empty', 'cond']
+            'roundtrip', 'sum-empty', 'cond', 'history:scalarmul']
 
 
 class Reg:
@@ -43,6 +43,10 @@ def decoder_sweep(ctx, n):
             ctx.add('ed.tryfrom', hx(b), expect=['err'], cls='slice')
 
 
+def sc(v):
+    return 'c' + to32(v % L).hex()
+
+
 def start_regs(ctx, pool, k):
     rng = ctx.rng
     regs = []
@@ -62,7 +66,8 @@ def preds(ctx, r, cls=None):
 def step(ctx, regs, op=None):
     rng = ctx.rng
     op = op or rng.choice(['add', 'add', 'sub', 'neg', 'dbl', 'mulcof', 'sum', 'eq', 'preds', 'roundtrip', 'csel',
-                           'addassign', 'subassign', 'pow2', 'valid', 'cassign', 'cswap', 'cneg'])
+                           'addassign', 'subassign', 'pow2', 'valid', 'cassign', 'cswap', 'cneg',
+                           'mul', 'mulbase', 'dsm', 'msm'])
     p = rng.choice(regs)
     q = rng.choice(regs)
     if op in ('add', 'addassign'):
@@ -132,6 +137,34 @@ def step(ctx, regs, op=None):
         aff = ref.aff_neg(p.aff) if ch else p.aff
         rid = ctx.add('ed.cneg', p.tok, B(ch), expect=pts.expect_ed(aff), cls=['history', 'cond'])
         regs.append(Reg(ctx.ref(rid, 1), aff, (-p.a) % L if ch else p.a, (-p.j) % 8 if ch else p.j))
+    # results of the scalar-multiplication routines are points like any other: they re-enter the history, so an
+    # inconsistent internal representation (a wrong T, a Z of zero) shows in whatever is computed from them next
+    elif op == 'mul':
+        k = rng.choice([0, 1, 2, 8, L - 1, rng.randrange(L), rng.randrange(1 << 20)])
+        r = vals.Pt(p.a * k % L, p.j * k % 8)
+        aff = r.affine()
+        enc = ref.ed_compress(aff).hex()
+        rid = ctx.add('ed.mul', p.tok, sc(k), expect=pts.both(pts.expect_ed(aff), pts.tok_is(2, enc), pts.tok_is(3, enc)),
+                      cls=['history', 'history:scalarmul'])
+        regs.append(Reg(ctx.ref(rid, 1), aff, r.a, r.j))
+    elif op == 'mulbase':
+        k = rng.choice([0, 1, L - 1, rng.randrange(L)])
+        r = vals.Pt(k, 0)
+        rid = ctx.add('ed.mulbase', sc(k), expect=pts.expect_ed(r.affine()), cls=['history', 'history:scalarmul'])
+        regs.append(Reg(ctx.ref(rid, 1), r.affine(), r.a, r.j))
+    elif op == 'dsm':
+        k1, k2 = rng.choice([0, 1, rng.randrange(L)]), rng.choice([0, 1, rng.randrange(L)])
+        r = vals.Pt((p.a * k1 + k2) % L, p.j * k1 % 8)
+        rid = ctx.add('ed.dsm', sc(k1), p.tok, sc(k2), expect=pts.expect_ed(r.affine()), cls=['history', 'history:scalarmul'])
+        regs.append(Reg(ctx.ref(rid, 1), r.affine(), r.a, r.j))
+    elif op == 'msm':
+        n = rng.choice([0, 1, 2, 3])
+        items = [rng.choice(regs) for _ in range(n)]
+        ks = [rng.choice([0, 1, L - 1, rng.randrange(L)]) for _ in range(n)]
+        r = vals.Pt(sum(k * it.a for k, it in zip(ks, items)) % L, sum(k * it.j for k, it in zip(ks, items)) % 8)
+        rid = ctx.add(rng.choice(['ed.msm', 'ed.vmsm']), lst([sc(k) for k in ks]), lst([it.tok for it in items]),
+                      expect=pts.expect_ed(r.affine()), cls=['history', 'history:scalarmul'])
+        regs.append(Reg(ctx.ref(rid, 1), r.affine(), r.a, r.j))
 
 
 def directed(ctx, pool):
